@@ -61,13 +61,13 @@ class StereoCondensedReactionGraph(StereoMolGraph, CondensedReactionGraph):
     """
 
     __slots__ = ("_atom_stereo_change", "_bond_stereo_change")
-    _atom_stereo_change: defaultdict[AtomId, ChangeDict[AtomStereo]]
-    _bond_stereo_change: defaultdict[Bond, ChangeDict[BondStereo]]
+    _atom_stereo_change: dict[AtomId, ChangeDict[AtomStereo]]
+    _bond_stereo_change: dict[Bond, ChangeDict[BondStereo]]
 
     def __init__(self, mol_graph: Optional[MolGraph] = None):
         super().__init__(mol_graph)
-        self._atom_stereo_change = defaultdict(ChangeDict[AtomStereo])
-        self._bond_stereo_change = defaultdict(ChangeDict[BondStereo])
+        self._atom_stereo_change = {}
+        self._bond_stereo_change = {}
 
         if mol_graph and isinstance(mol_graph, StereoCondensedReactionGraph):
             self._atom_stereo_change.update(
@@ -316,11 +316,11 @@ class StereoCondensedReactionGraph(StereoMolGraph, CondensedReactionGraph):
                 bond_stereo_change[new_bond][stereo_change] = new_stereo
 
         if copy is True:
-            relabeled_scrg._atom_stereo_change = atom_stereo_change
-            relabeled_scrg._bond_stereo_change = bond_stereo_change
+            relabeled_scrg._atom_stereo_change = dict(atom_stereo_change)
+            relabeled_scrg._bond_stereo_change = dict(bond_stereo_change)
         else:
-            self._atom_stereo_change = atom_stereo_change
-            self._bond_stereo_change = bond_stereo_change
+            self._atom_stereo_change = dict(atom_stereo_change)
+            self._bond_stereo_change = dict(bond_stereo_change)
 
         return relabeled_scrg
 
@@ -343,7 +343,8 @@ class StereoCondensedReactionGraph(StereoMolGraph, CondensedReactionGraph):
                     if stereo is not None and all(
                         a in atom_set for a in stereo.atoms if a is not None
                     ):
-                        new_changes[key][change] = stereo
+                        new_changes.setdefault(key, ChangeDict())[
+                            change] = stereo
         return new_graph
 
     def reactant(self, keep_attributes: bool = True) -> StereoMolGraph:
